@@ -28,6 +28,8 @@ LineOk(r) ==
                             [i \in 1..Len(r.si) |-> StdM(r.len, Num(r.si[i]))])
          /\ r.out = r.secret
     [] r.op = "genmid" -> r.rc = 0 /\ r.det /\ r.out = GenMid(r.m0, r.id)
+    [] r.op = "genmi" -> LET g == GenMi(r.m0, r.tape) IN
+                           IF g[1] THEN r.rc = 0 /\ r.out = g[2] ELSE r.rc # 0
     [] r.op = "valm" -> (r.rc = 0) = ValM(r.m)
     [] OTHER -> FALSE
 
